@@ -718,6 +718,26 @@ impl<F: Read + Write + Seek> Package<F> {
                 );
             }
         }
+        {
+            // The catalog rows go into up to three tables; make sure that the
+            // string pool has room for the strings of all of them together.
+            let used_rows = columns_rows.iter().chain(
+                validation_rows.iter().filter(|_| has_validation_table),
+            );
+            if !self.string_pool.has_room_for(
+                used_rows
+                    .flatten()
+                    .filter_map(Value::as_str)
+                    .map(|string| (string, 1)),
+                0,
+            ) {
+                invalid_input!(
+                    "Cannot create table {:?}: too many distinct strings in \
+                     the database",
+                    table_name
+                );
+            }
+        }
         self.insert_rows(Insert::into(COLUMNS_TABLE_NAME).rows(columns_rows))?;
         self.insert_rows(
             Insert::into(TABLES_TABLE_NAME)
